@@ -128,6 +128,10 @@ func c07(tier string) []*explore.Scenario {
 			out = append(out, c07ServeDeadline(serve, call, bound))
 		}
 	}
+	// a stream that has been open for a while (longer than any internal timeout) before it is cancelled
+	for _, age := range []time.Duration{29 * time.Second, 31 * time.Second, time.Hour} {
+		out = append(out, c07OldStream(age, bound))
+	}
 	// calls started on a context that is already over
 	for _, kind := range []string{"Unary", "Bidi", "SStream", "CStream"} {
 		for _, how := range []string{"cancelled", "expired"} {
@@ -136,6 +140,8 @@ func c07(tier string) []*explore.Scenario {
 			}
 		}
 	}
+	// over the HTTP transport: the reset of a cancelled stream parked across its own write timeout
+	out = append(out, httpResetAcrossTimeout("C07"))
 	out = append(out, apiSeqs("C07", tier)...)
 	return out
 }
@@ -279,6 +285,74 @@ func c07ServeDeadline(serve, call time.Duration, bound int) *explore.Scenario {
 			}
 			if r.HStarts == 1 && (hctx == nil || hctx.Err() == nil) {
 				vsched.Fail(fam+"|handler-ctx-live", "Serve context deadline %v, call deadline %v: the caller cancelled, but the handler's context is still live", serve, call)
+			}
+			finishDirect(d, w, true)
+		},
+	}
+}
+
+// c07OldStream: the stream has been open (and idle) for `age` when its caller
+// cancels. As for a young stream: Canceled for the caller, a reset on the wire,
+// the handler's context done, nothing left on either side.
+func c07OldStream(age time.Duration, bound int) *explore.Scenario {
+	fam := "C07/old-stream"
+	return &explore.Scenario{
+		Name:   fmt.Sprintf("C07/old-stream/age=%v", age),
+		Family: fam, Prop: "C07", Bound: bound, Horizon: 2 * time.Hour,
+		Run: func() {
+			w := env.NewWorld()
+			d := env.NewDirect(w, env.DirectOpts{Pipe: env.PipeOpts{Cap: 64}})
+			vsched.Settle()
+			idle := c14State(d)
+			r := w.Rec("s", "Bidi")
+			var hctx context.Context
+			w.Handlers["s"] = func(r *env.Rec, ss grpc.ServerStream) error {
+				hctx = ss.Context()
+				ss.RecvMsg(new(env.Msg))
+				<-ss.Context().Done()
+				return status.FromContextError(ss.Context().Err()).Err()
+			}
+			ctx, cancel := context.WithCancel(context.Background())
+			defer cancel()
+			var cs grpc.ClientStream
+			vsched.GoNamed("caller", func() {
+				cs = w.Open(d.CC, ctx, r)
+				if cs != nil {
+					env.CSend(r, cs, "m")
+				}
+			})
+			vsched.Quiesce()
+			vsched.GoNamed("time-passes", func() { vsched.SleepFor("age", age) })
+			vsched.QuiesceTime()
+			vsched.Explore(true)
+			var rerr error
+			done := false
+			vsched.GoNamed("caller2", func() {
+				if cs != nil {
+					cancel()
+					rerr = cs.RecvMsg(new(env.Msg))
+				}
+				done = true
+			})
+			vsched.Quiesce()
+			resetSeen := false
+			for _, e := range d.Tap.Events {
+				if e.Dir == "a2b" && e.Rpc.Reset_ != nil {
+					resetSeen = true
+				}
+			}
+			vsched.Obs("age=%v: done=%v err=%s reset=%v handler-ctx-done=%v", age, done, env.ErrStr(rerr), resetSeen, hctx != nil && hctx.Err() != nil)
+			if !done || status.Code(rerr) != codes.Canceled {
+				vsched.Fail(fam+"|status", "a receive on the cancelled stream: returned=%v %s", done, env.ErrStr(rerr))
+			}
+			if !resetSeen {
+				vsched.Fail(fam+"|no-reset", "a stream cancelled %v after it was opened: no reset reached the wire", age)
+			}
+			if r.HStarts == 1 && (hctx == nil || hctx.Err() == nil) {
+				vsched.Fail(fam+"|handler-ctx-live", "a stream cancelled %v after it was opened: the handler's context is still live", age)
+			}
+			if st := c14State(d); st != idle {
+				vsched.Fail("C14/release|not-idle:"+diffKey(idle, st)+"|old-stream", "a stream cancelled %v after it was opened: the connection did not return to its idle state:\n%s", age, diffStates(idle, st))
 			}
 			finishDirect(d, w, true)
 		},
